@@ -145,6 +145,89 @@ c.native = False
 con.cases.append(c)
 
 
+# ---- FlagField: is_clear() is the negation of is_set() in both construction modes ---------------------------------------------
+class _BitVal:
+    """a Bit-valued object with symbolic value f_v"""
+
+
+class _SyncFlag:
+    """std.SyncFlag stand-in"""
+
+
+_BitVal.__invert__ = lambda self: None
+_SyncFlag.is_set = lambda self: None
+_SyncFlag.is_clear = lambda self: None
+I.register_model(_BitVal.__invert__, lambda it, self: SObj(_BitVal, f_v=sym.Not(self.fields["f_v"])))
+I.register_model(_SyncFlag.is_set, lambda it, self: SObj(_BitVal, f_v=self.fields["f_set"]))
+I.register_model(_SyncFlag.is_clear, lambda it, self: SObj(_BitVal, f_v=sym.Not(self.fields["f_set"])))
+
+for meth, negated in (("is_set", False), ("is_clear", True)):
+    con = contract(f"cohdl.std.reg.reg:FlagField.{meth}", PROPS)
+    for has_flag in (True, False):
+        def mk_flag(env, has_flag=has_flag):
+            b = z3.Bool("flag_value")
+            if has_flag:
+                return SObj(REG.FlagField, _has_flag=True, _flag=SObj(_SyncFlag, f_set=b))
+            return SObj(REG.FlagField, _has_flag=False, _val=SObj(_BitVal, f_v=b))
+
+        def flag_spec(sx, self, negated=negated):
+            b = z3.Bool("flag_value")
+            want = sym.Not(b) if negated else b
+            return C.Pred(lambda res: isinstance(res, SObj) and res.kind is _BitVal and sx.it.ctx.entails(sym.to_z3(res.fields["f_v"]) == sym.to_z3(want)), "set / clear reading of the flag value")
+
+        c = Case("own-flag" if has_flag else "received-bit", [Built([], mk_flag, lambda a: "None", lambda a: None)], flag_spec)
+        c.native = False
+        c.custom_replay = "contracts.c20_regs.replay_flag_is_clear"
+        con.cases.append(c)
+
+
+_FLAG_DESIGN = '''
+from __future__ import annotations
+from cohdl import Entity, Port, Bit, std
+from cohdl.std.reg import reg32
+from cohdl.std.axi import axi4_light as axi
+
+class R(reg32.Register):
+    fl: reg32.FlagField[0]
+
+    def _config_(self, os, oc):
+        self.os, self.oc = os, oc
+
+    def _on_write_(self, data):
+        # `data` is the register value received from the bus: its flag field is built from the written bit
+        self.os <<= data.fl.is_set()
+        self.oc <<= data.fl.is_clear()
+        return data
+
+class Root(reg32.AddrMap):
+    r: R[0x0]
+    def _config_(self, os, oc):
+        self.r._config_(os, oc)
+
+class Top(axi.addr_map_entity()):
+    os = Port.output(Bit, default=False)
+    oc = Port.output(Bit, default=False)
+    def architecture(self):
+        self.interface_connection().connect_addr_map(Root(self.os, self.oc))
+
+t = std.VhdlCompiler.to_string(Top)
+lines = [l.strip() for l in t.split("\\n")]
+drv = {n: [l.split("<=")[1].strip(" ;") for l in lines if l.startswith(f"buffer_{n} <=") and "'0'" not in l] for n in ("os", "oc")}
+print("DRIVERS", drv)
+src = drv["oc"][0]
+neg = [l for l in lines if l.startswith(src + " :=") and "not" in l]
+print("IS_CLEAR_NEGATED" if neg else "IS_CLEAR_EQUALS_IS_SET" if drv["oc"] == drv["os"] else "OTHER")
+'''
+
+
+def replay_flag_is_clear(payload):
+    """a register's _on_write_ hook reads is_set() and is_clear() of the flag field received from the bus"""
+    from contracts.c06_extra import _run_design
+
+    rc, out = _run_design(_FLAG_DESIGN)
+    return {"reproduced": rc == 0 and "IS_CLEAR_EQUALS_IS_SET" in out, "detail": out[-300:]}
+
+
 # ---- arrays of registers: element k sits at (global offset of the array) + k * step, wherever the array is nested -----------
 class _ElemType:
     """array_type stand-in: array_type[offset](parent, name) creates the element at `offset` relative to `parent`"""
